@@ -168,6 +168,62 @@ def fault_cases(draw):
 STRAT = fault_cases()
 
 
+def optimised_custom(ctx, seed, tier, shard, nshards, n):
+    """The same fault enumeration in child interpreters started with -O and -OO: validation written with `assert` (or behind `if __debug__`)
+    disappears there, and a malformed call is then accepted or fails late with another exception class."""
+    import json
+    import os
+    import subprocess
+    import sys
+
+    from hypothesis import HealthCheck, given, settings
+    from hypothesis import seed as hseed
+
+    from vf.core import HarnessError
+
+    cases = []
+
+    @hseed(seed)
+    @settings(max_examples=n + 1, database=None, deadline=None, suppress_health_check=list(HealthCheck))
+    @given(fault_cases())
+    def collect(c):
+        cases.append(c)
+
+    collect()
+    cases = cases[:n] if shard == 0 else cases[1:n + 1]
+    here = os.path.dirname(os.path.dirname(os.path.dirname(os.path.abspath(__file__))))
+    work = os.path.join(here, ".work", f"c13-opt-{os.getpid()}-{shard}")
+    os.makedirs(work, exist_ok=True)
+    path = os.path.join(work, "cases.json")
+    with open(path, "w") as f:
+        json.dump(cases, f)
+    try:
+        for flag in ("-O", "-OO"):
+            p = subprocess.run([sys.executable, "-B", flag, "-m", "vf.c13child", path], capture_output=True, text=True, timeout=1800)
+            if p.returncode != 0:
+                raise HarnessError(f"c13 child failed: {p.stderr[-2000:]}")
+            out = json.loads(p.stdout)
+            if out["optimize"] < 1:
+                raise HarnessError("child did not run optimised")
+            ctx.called(out["calls"])
+            if out["violations"]:
+                v0 = out["violations"][0]
+                v = Violation("optimised:" + v0["bucket"], f"under python {flag}: " + v0["detail"])
+                v.case = cases[v0["index"]]
+                raise v
+    finally:
+        try:
+            os.remove(path)
+            os.rmdir(work)
+        except OSError:
+            pass
+    for c in cases:
+        ctx.begin(c)
+        ctx.nontrivial_if(True)
+        ctx.label("flags:-O,-OO")
+        ctx.end()
+
+
 def fuzz_custom(ctx, seed, tier, shard, nshards, n):
     from vf.fuzz.harness import fuzz_clause
 
@@ -186,6 +242,9 @@ PROPERTY = Property(
     pid="C13",
     level="fault_enumeration",
     clauses=[
+        Clause(name="optimised-interpreter", kind="custom", custom=optimised_custom, check=check_c13, quick=160, thorough=1600, shards_quick=16, shards_thorough=16,
+               rule="the fault enumeration of clause fault-enumeration on generated valid calls, executed in child interpreters started with -O and with -OO "
+                    "(assert statements and __debug__ blocks compiled away): same oracle; a replay file is a plain case of fault-enumeration"),
         Clause(name="fault-enumeration", strategy=STRAT, check=check_c13, quick=1600, thorough=24000,
                rule="one generated valid call (2..5 teams x 1..3 players, any outcome encoding / options); ALL sites x fault kinds of the grammar enumerated on it "
                     "for rate and the three predicts (100-400 faulty calls per case); non-trivial = the case contains faults at depth >= 2 (player slot, "
